@@ -8,6 +8,7 @@ mod net;
 mod wire;
 mod netprops;
 mod c13;
+mod c14;
 
 use common::Args;
 
@@ -28,6 +29,8 @@ fn main() {
     }
     match argv[1].as_str() {
         "c13" => c13::run(&a),
+        "c14" => c14::run_c14(&a),
+        "c15" => c14::run_c15(&a),
         "c01" => wire::run_c01(&a),
         "c03" => wire::run_c03(&a),
         "c04" => wire::run_c04(&a),
